@@ -1,4 +1,7 @@
 (** Executable entry point of the scheduler model for the correspondence check.
+    Three input formats: the atomic model (below), the driver of the in-flight machine ([run_sched_flight]: the
+    format of every timed scenario of the harness), job keys ([run_sched]).
+    atomic model:
     input  = ( op ... )
              op = (0 a recv ref d p) Once | (1 a recv ref i p) Loop | (2 a recv ref valid p) Cron
                 | (3 a ref) Cancel | (4 a) Clear | (5 a ref) Exists | (6 a) owner terminated | (7 a) owner restarted
@@ -10,7 +13,7 @@
              9 quartz empty key name | (b) Exists | (((path (ref ...)) ...) ((path ref) ...)) dump *)
 From Coq Require Import List NArith ZArith.
 From stdpp Require Import gmap.
-From Vivid Require Import Base.Tm Timer.SchedModel.
+From Vivid Require Import Base.Tm Timer.SchedModel Timer.SchedFlight Timer.SchedKey.
 Local Open Scope N_scope.
 
 Definition get_op (t : tm) : option op :=
@@ -49,11 +52,89 @@ Definition count_fires (s : sched) (x : N) : tm :=
   TL [TN (N.of_nat (length (List.filter (fun f => negb (f_dead f)) fs)));
       TN (N.of_nat (length (List.filter f_dead fs)))].
 
-Definition run_sched (t : tm) : tm :=
+(** the atomic model (Timer/SchedModel.v) *)
+Definition run_sched_atomic (t : tm) : tm :=
   match get_list get_op t with
   | Some ops =>
       let s := run ops init in
       TL [tlist t_res (run_res ops init);
           tlist (count_fires s) (map N.of_nat (seq 0 (N.to_nat (nid s))))]
   | None => tm_err 1
+  end.
+
+(** the driver of the in-flight machine (Timer/SchedFlight.v):
+    input  = ( (15 g) dop ... ) or ( (15 g m) dop ... )
+             g = the slot of the harness's time grid in ms; m = which internal observations this build of vivid does not
+             offer (bit 0: the per-actor reference record, bit 1: the go-quartz queue): the corresponding component of every
+             dump is projected out (printed as the empty list on both sides)
+             dop = op (as above) | (11 a) a long handler of a begins | (12 a) it ends
+                 | (13 a ref) Tell goroutines of the key (a, ref) are suspended | (14 a ref) resumed
+                 | (16 a) the stop sequence of a begins
+    output = ( (result ...) ((delivered dead-lettered ((slot dead) ...)) ...) in-flight )
+             per scheduling call that returned nil: the counts and, oldest first, the slot of every arrival
+             (arrival time / g; a Tell that lands in the clock step that popped it arrives at its firing instant);
+             in-flight = the Tells still in flight at the end *)
+Definition get_dop (t : tm) : option dop :=
+  match t with
+  | TL [TN 11; TB a] => Some (DBlock a)
+  | TL [TN 12; TB a] => Some (DUnblock a)
+  | TL [TN 13; TB a; TB r] => Some (DHold a r)
+  | TL [TN 14; TB a; TB r] => Some (DRelease a r)
+  | TL [TN 16; TB a] => Some (DStopping a)
+  | _ => match get_op t with Some o => Some (DBase o) | None => None end
+  end.
+
+Definition is_tick_dop (o : dop) : bool :=
+  match o with DBase (OTick _) => true | _ => false end.
+
+(** (call, arrival time, dead) of everything that lands during the run, in order *)
+Fixpoint drun_arrivals (ops : list dop) (d : dsched) : list (N * Z * bool) :=
+  match ops with
+  | [] => []
+  | o :: r =>
+      let d' := fst (dstep o d) in
+      map (fun l => (f_id (l_fire l), (if is_tick_dop o then f_time (l_fire l) else l_time l), l_dead l))
+          (skipn (length (landed (fs d))) (landed (fs d')))
+      ++ drun_arrivals r d'
+  end.
+
+Definition t_arrivals (g : Z) (arr : list (N * Z * bool)) (x : N) : tm :=
+  let mine := List.filter (fun e => (fst (fst e) =? x)) arr in
+  TL [TN (N.of_nat (length (List.filter (fun e => negb (snd e)) mine)));
+      TN (N.of_nat (length (List.filter (fun e => snd e) mine)));
+      tlist (fun e => TL [TN (Z.to_N (Z.div (snd (fst e)) g)); tbool (snd e)]) mine].
+
+Definition t_res_proj (m : N) (r : res) : tm :=
+  match r with
+  | RDump jks keys =>
+      TL [if N.testbit m 0 then TL [] else tlist (fun p => TL [TB (fst p); tlist TB (snd p)]) jks;
+          if N.testbit m 1 then TL [] else tlist (fun k => TL [TB (fst k); TB (snd k)]) keys]
+  | _ => t_res r
+  end.
+
+Definition run_sched_flight (g m : N) (ts : list tm) : tm :=
+  match get_list get_dop (TL ts) with
+  | Some ops =>
+      let d := drun ops dinit in
+      let arr := drun_arrivals ops dinit in
+      TL [tlist (t_res_proj m) (drun_res ops dinit);
+          tlist (t_arrivals (Z.of_N g) arr) (map N.of_nat (seq 0 (N.to_nat (nid (base (fs d))))));
+          TN (N.of_nat (length (flight (fs d))))]
+  | None => tm_err 1
+  end.
+
+(** job keys (Timer/SchedKey.v):
+    (17 name group)          quartz.NewJobKeyWithGroup(name, group)           -> (group name)
+    (18 n1 g1 n2 g2)         NewJobKeyWithGroup(n1, g1).Equals(NewJobKeyWithGroup(n2, g2))  -> bool
+    (19 path reference)      uniqueJobKey of the actor with that path          -> (group name) *)
+Definition t_key (k : key) : tm := TL [TB (fst k); TB (snd k)].
+
+Definition run_sched (t : tm) : tm :=
+  match t with
+  | TL (TL [TN 15; TN g] :: ts) => if (g =? 0) then tm_err 2 else run_sched_flight g 0 ts
+  | TL (TL [TN 15; TN g; TN m] :: ts) => if (g =? 0) then tm_err 2 else run_sched_flight g m ts
+  | TL [TN 17; TB name; TB group] => t_key (quartz_key name group)
+  | TL [TN 18; TB n1; TB g1; TB n2; TB g2] => tbool (key_eqb (quartz_key n1 g1) (quartz_key n2 g2))
+  | TL [TN 19; TB path; TB ref] => t_key (unique_job_key path ref)
+  | _ => run_sched_atomic t
   end.
